@@ -290,9 +290,27 @@ func (e *dEnv) digest(catchup int64) {
 			}
 		}
 	}
-	// what must have happened by now (allowance: the window [E, E+2] / [T, T+2] of the statements)
+	if !e.missesPending(false) {
+		return
+	}
+	// something that must have happened has not: the settle heuristic may have returned while a spawned sweep goroutine
+	// had not yet run - wait generously (real time costs nothing here), take what arrived, then judge
+	time.Sleep(150 * time.Millisecond)
+	if catchup >= 0 {
+		e.digest(-1)
+		return
+	}
+	e.missesPending(true)
+}
+
+// missesPending: what must have happened by now (allowance: the windows [E, E+2] / [T, T+2] of the statements).
+func (e *dEnv) missesPending(record bool) (any bool) {
 	for _, h := range e.holds {
 		if !h.ended && !h.unlimited && e.now-h.g >= h.e+2 {
+			any = true
+			if !record {
+				continue
+			}
 			h.ended = true // reported once
 			where := "wheel"
 			if h.long {
@@ -315,6 +333,12 @@ func (e *dEnv) digest(catchup int64) {
 		if q == nil || q.answered || q.op.K != "lock" {
 			continue
 		}
+		if q.op.T == 0 || e.now-q.sent >= int64(q.op.T)+2 || live[q.op.Key] == 0 {
+			any = true
+			if !record {
+				continue
+			}
+		}
 		if q.op.T == 0 {
 			q.answered = true
 			e.viol("C05:disp:timeout0-not-immediate", "request #%d (%v) has Timeout 0 and got no reply", i, q.op)
@@ -324,6 +348,43 @@ func (e *dEnv) digest(catchup int64) {
 		} else if live[q.op.Key] == 0 {
 			q.answered = true
 			e.viol("C06:disp:waiter-not-served", "request #%d (%v) is still queued at t+%d although no hold is left on its key; last clock move: %s", i, q.op, e.now, e.lastOp)
+		}
+	}
+	return
+}
+
+// aftermath: after a miss, 20 further one-second steps tell "late" (the entry was still filed somewhere and comes up at
+// a later wheel turn) from "lost" (nothing will ever end it). Diagnosis only, appended to the message.
+func (e *dEnv) aftermath() {
+	miss := false
+	for _, x := range e.viols {
+		if strings.HasSuffix(x.Key, "-missed") {
+			miss = true
+		}
+	}
+	if !miss {
+		return
+	}
+	before := e.nReplies()
+	for k := 0; k < 20; k++ {
+		if !e.advance(1) {
+			break
+		}
+	}
+	time.Sleep(50 * time.Millisecond)
+	e.mu.Lock()
+	var got []string
+	for _, r := range e.replies[before:] {
+		got = append(got, fmt.Sprintf("req#%d %s at t+%d", r.step, aResultName(r.res), r.at))
+	}
+	e.mu.Unlock()
+	note := "; 20 further one-second steps brought nothing: the entry is lost to the sweep"
+	if len(got) > 0 {
+		note = "; 20 further one-second steps brought: " + strings.Join(got, ", ")
+	}
+	for i := range e.viols {
+		if strings.HasSuffix(e.viols[i].Key, "-missed") {
+			e.viols[i].Msg += note
 		}
 	}
 }
@@ -438,10 +499,8 @@ func dExec(c *dCase) (out dOutcome) {
 			e.digest(int64(s.N))
 		}
 		if len(e.viols) > 0 {
-			// give stragglers a generous moment before believing a miss, then stop at the first violating step
-			time.Sleep(100 * time.Millisecond)
-			e.digest(0)
-			finish()
+			e.aftermath()
+			finish() // stop at the first violating step
 			return
 		}
 	}
@@ -461,6 +520,9 @@ func dExec(c *dCase) (out dOutcome) {
 		return
 	}
 	e.digest(70)
+	if len(e.viols) > 0 {
+		e.aftermath()
+	}
 	if len(e.viols) == 0 {
 		keys := map[int]bool{}
 		for _, s := range c.Steps {
@@ -483,9 +545,6 @@ func dExec(c *dCase) (out dOutcome) {
 				e.viol("C06:disp:capacity-not-freed", "after every hold on k%d ended, a probe LOCK with Count 0 is not granted", k)
 			}
 		}
-	}
-	if len(e.viols) > 0 {
-		time.Sleep(100 * time.Millisecond)
 	}
 	finish()
 	return
@@ -604,6 +663,10 @@ func dProp(test, prop string) func(*rapid.T) {
 		if x == nil {
 			for _, y := range o.viols {
 				st.Class("violation of the sibling property (reported by its own test): "+y.Key, 1)
+				if dir := os.Getenv("VERIF_FAILDIR"); dir != "" {
+					b, _ := json.MarshalIndent(map[string]interface{}{"test": test, "key": y.Key, "message": y.Msg + "\n" + o.hist, "case": c}, "", " ")
+					_ = os.WriteFile(filepath.Join(dir, fmt.Sprintf("ER.sibling-%d.json", atomic.AddInt64(&rAnomalySeq, 1))), b, 0644)
+				}
 			}
 			return
 		}
